@@ -131,6 +131,22 @@ def babinet_rules(run, db):
           babinet_path(run, f, dom, v, lyot)
 
 
+def _lost(x, depth=0):
+    """does the provenance of an array value contain something the interpretation did not follow?  (An array without provenance that
+    is not one of the named inputs is the residue of arithmetic with an operand that was lost.)"""
+    if depth > 40:
+        return True
+    if isinstance(x, Unknown):
+        return True
+    if isinstance(x, Prod2):
+        return _lost(x.arr, depth + 1)
+    if isinstance(x, Shaped):
+        if x.origin is None:
+            return not getattr(x, 'is_input', False)
+        return any(_lost(y, depth + 1) for y in x.origin[1:] if isinstance(y, (Shaped, Unknown)))
+    return False
+
+
 def babinet_path(run, f, dom, v, lyot):
     if True:
         data = v.attrs.get('data') if isinstance(v, Obj) else None
@@ -152,6 +168,8 @@ def babinet_path(run, f, dom, v, lyot):
                 ok = isinstance(stage1, Prod2) and stage1.arr.label == 'ary' and isinstance(mask, Shaped) and mask.origin is not None \
                     and mask.origin[0] == 'scale' and mask.origin[1] == 'Sub' and mask.origin[4] is True \
                     and dom.rat(mask.origin[3]) is not None and dom.rat(mask.origin[3]) == 1 and mask.origin[2].label == 'fpm'
+        if not ok and (data is None or _lost(data)):
+            raise AnalysisError('babinet: the returned field is not followed back to the inputs (%r)' % (data,))
         run.check(ok, 'C05.babinet', f.qual, 'structure lyot=%s' % lyot, 'babinet == [lyot *] (field - to_fpm_and_back(field, 1 - fpm))',
                   'babinet is not [lyot *] (data - to_fpm_and_back(data, 1 - fpm)): %r' % (data,), f.loc())
 
